@@ -36,9 +36,12 @@ def true_weights(Q, n):
 
 
 def w_optimal(cfg, tier):
+    """cfg = 'optimal <code> [X|Z]': full decoder, or the documented single-sector modes error_type='X' / 'Z'
+    (only that sector is decoded; its correction must be minimum-weight under ITS flip marginal)."""
     mods = _install()
     md = mods['md']
     code = common.make_code(cfg.split(' ')[1])
+    etype = cfg.split(' ')[2] if len(cfg.split(' ')) > 2 else None
     n = code.n
     col = hz.Collector(cfg)
     col.encoded(md.MatchingDecoder.__init__, md.MatchingDecoder.decode, mods['bem'].BaseErrorModel.get_weights)
@@ -52,7 +55,7 @@ def w_optimal(cfg, tier):
     try:
         with eng:
             def fn():
-                dec = md.MatchingDecoder(code, model, 0.1)
+                dec = md.MatchingDecoder(code, model, 0.1, error_type=etype)
                 s = code.measure_syndrome(as_sa([Bit(b) for b in E]))
                 return dec.decode(s), dec
             ps = eng.explore(fn)
@@ -82,12 +85,26 @@ def w_optimal(cfg, tier):
             continue
         corr, dec = p.value
         cells = [bool_term(c) for c in np.asarray(corr).reshape(-1)]
-        mx, mz = dec.matcher_x, dec.matcher_z
-        wired = (mx.H != code.Hz).nnz == 0 and (mz.H != code.Hx).nnz == 0
+        mx, mz = getattr(dec, 'matcher_x', None), getattr(dec, 'matcher_z', None)
+        wired = (etype == 'Z' or (mx is not None and (mx.H != code.Hz).nnz == 0)) and \
+            (etype == 'X' or (mz is not None and (mz.H != code.Hx).nnz == 0))
+        # a single-sector decoder leaves the other half of the correction zero
+        if etype == 'X':
+            wired = wired and not any(z3.is_true(z3.simplify(c)) or not z3.is_false(z3.simplify(c)) for c in cells[n:])
+        if etype == 'Z':
+            wired = wired and not any(z3.is_true(z3.simplify(c)) or not z3.is_false(z3.simplify(c)) for c in cells[:n])
         bad_wire.append(z3_and(p.pc + [z3.BoolVal(not wired)]))
-        bad_x.append(z3_and(p.pc + [mx.min_clause(0, CX), same_x, wsum(wx_true, cells[:n]) > wsum(wx_true, CX)]))
-        bad_z.append(z3_and(p.pc + [mz.min_clause(0, CZ), same_z, wsum(wz_true, cells[n:]) > wsum(wz_true, CZ)]))
+        if not wired:
+            continue
+        if etype in (None, 'X'):
+            bad_x.append(z3_and(p.pc + [mx.min_clause(0, CX), same_x, wsum(wx_true, cells[:n]) > wsum(wx_true, CX)]))
+        if etype in (None, 'Z'):
+            bad_z.append(z3_and(p.pc + [mz.min_clause(0, CZ), same_z, wsum(wz_true, cells[n:]) > wsum(wz_true, CZ)]))
     col.prove('C09/matching/x-sector-uses-Hz-and-z-sector-uses-Hx', base, z3_or(bad_wire), wit)
+    if etype == 'Z':
+        bad_x = [z3.BoolVal(False)]
+    if etype == 'X':
+        bad_z = [z3.BoolVal(False)]
     col.prove('C09/matching/x-correction-has-minimum-log-likelihood-weight', base, z3_or(bad_x), wit,
               'no competitor with the same Z-type syndrome has smaller weight under the LLR of the X-flip marginal; '
               'all errors, all per-qubit distributions with marginals < 1/2, all competitors', timeout_ms=120000)
@@ -378,7 +395,8 @@ def replay(path):
                     def probability_distribution(self, code_, error_rate):
                         return tuple(q[s] for s in 'IXYZ')
                 model = Model(1 / 3, 1 / 3, 1 / 3)
-                dec = MatchingDecoder(code, model, 0.1)
+                etype = cfg.split(' ')[2] if len(cfg.split(' ')) > 2 else None
+                dec = MatchingDecoder(code, model, 0.1, error_type=etype)
                 mX, mZ = q['X'] + q['Y'], q['Z'] + q['Y']
                 wx = -np.log((mX + EPS) / (1 - mX + EPS))
                 wz = -np.log((mZ + EPS) / (1 - mZ + EPS))
@@ -392,6 +410,11 @@ def replay(path):
                     c = np.asarray(dec.decode(s))
                     # exact optimum by enumeration of the solution coset (small codes)
                     for sector, Hs, w_, part in (('x', code.Hz, wx, c[:n]), ('z', code.Hx, wz, c[n:])):
+                        if etype is not None and sector != etype.lower():
+                            if part.any():
+                                print('single-sector decoder', etype, 'touched the other half:', part.tolist())
+                                bad = True
+                            continue
                         Hd = Hs.toarray()
                         synd = code.extract_z_syndrome(s) if sector == 'x' else code.extract_x_syndrome(s)
                         best = None
@@ -426,6 +449,7 @@ def configs(tier):
         cor += ['Planar2DCode(4,4)', 'RotatedPlanar2DCode(4,4)', 'RotatedPlanar2DCode(5,5)', 'Planar2DCode(5,5)',
                 'Toric2DCode(5,5)', 'RotatedPlanar2DCode(5,4)', 'RotatedPlanar2DCode(6,5)', 'Planar2DCode(6,5)']
         # Toric2DCode(5,6) / (6,6) and RotatedPlanar2DCode(7,7) were tried: solver unknown after 300 s (outside the bound)
+    opt += ['Toric2DCode(2,2) Z', 'RotatedPlanar2DCode(2,3) Z', 'Planar2DCode(2,3) X']
     sec = ['Toric2DCode(2,2)/XZZX/x y', 'Planar2DCode(2,3)/XZZX/y x', 'RotatedPlanar2DCode(3,3)/XZZX/x none']
     real = ['real unionfind Toric2DCode(3,3) w=1', 'real unionfind Toric2DCode(3,4) w=1', 'real sweepmatch Toric3DCode(3,3,3) w=1',
             'real rotatedsweepmatch RotatedPlanar3DCode(3,3,3) w=1', 'real matching RotatedPlanar2DCode(3,3) w=1']
